@@ -55,91 +55,100 @@ structure Ext where
 
 variable (X : Ext) (c : Cfg)
 
-/-- the emission part of `emit_and_process`: which instruction is written for the chosen opcode
-(`none`: nothing is written) -/
-def emitOne (sim : State) (op : Op) (s : σ) : Except Panic (Option Instr × σ) :=
-  let rate := c.rateBits
-  match op with
-  | .int | .long | .long1 | .long4 | .binInt | .binInt1 | .binInt2 =>
-    let intLike := (Gen.table c.version).filter isIntLike
-    let (i, s) := E.chooseIndex s intLike.length
-    match idx? "emission.rs:int_like[idx]" intLike i with
+/-- `emit_int`: choose one of the protocol's int-like opcodes, draw an i32, mutate, encode -/
+def emitInt (s : σ) : Except Panic (Option Instr × σ) :=
+  let intLike := (Gen.table c.version).filter isIntLike
+  let (i, s) := E.chooseIndex s intLike.length
+  match idx? "emission.rs:int_like[idx]" intLike i with
+  | .error e => .error e
+  | .ok chosen =>
+    let (v0, s) := E.genI32 s
+    match firstSome (mutateInt E 32 Gen.boundInt) c.mutators v0 s c.rateBits with
     | .error e => .error e
-    | .ok chosen =>
-      let (v0, s) := E.genI32 s
-      match firstSome (mutateInt E 32 Gen.boundInt) c.mutators v0 s rate with
+    | .ok (v, s, _) =>
+      let ins : Instr := match chosen with
+        | .int => ⟨.int, .int v⟩
+        | .long => ⟨.long, .int v⟩
+        | .long1 => ⟨.long1, .bytes (Enc.le 4 (Enc.toU 32 v))⟩
+        | .long4 => ⟨.long4, .bytes (Enc.le 4 (Enc.toU 32 v))⟩
+        | .binInt => ⟨.binInt, .int v⟩
+        | .binInt1 => ⟨.binInt1, .int (Enc.toU 32 v % 256)⟩
+        | _ => ⟨.binInt2, .int (Enc.toU 32 v % 65536)⟩
+      .ok (some ins, s)
+
+/-- FLOAT / BINFLOAT -/
+def emitFloat (op : Op) (s : σ) : Except Panic (Option Instr × σ) :=
+  let (b0, s) := E.genF64 s
+  match firstSome (mutateFloat E) c.mutators b0 s c.rateBits with
+  | .error e => .error e
+  | .ok (b, s, _) =>
+    .ok (some (if op == .float then ⟨.float, .bytes (X.fmt b)⟩ else ⟨.binFloat, .float b⟩), s)
+
+/-- `emit_string` -/
+def emitStr (op : Op) (s : σ) : Except Panic (Option Instr × σ) :=
+  let (n, s) := E.genU8 s
+  let (cs0, s) := genChars E (n % 32) s []
+  match firstSome (mutateString E) c.mutators cs0 s c.rateBits with
+  | .error e => .error e
+  | .ok (cs, s, _) =>
+    let bytes := utf8 cs
+    if op == .string then .ok (some ⟨.string, .bytes ([0x27] ++ Enc.escapeString bytes ++ [0x27])⟩, s)
+    else if op == .unicode then .ok (some ⟨.unicode, .bytes (Enc.escapeBackslash bytes)⟩, s)
+    else if op == .shortBinUnicode then
+      (if bytes.length < 256 then .ok (some ⟨.shortBinUnicode, .bytes bytes⟩, s) else .ok (none, s))
+    else .ok (some ⟨op, .bytes bytes⟩, s)
+
+/-- `emit_bytes` -/
+def emitBytes (op : Op) (s : σ) : Except Panic (Option Instr × σ) :=
+  let (n, s) := E.genU8 s
+  let (bs0, s) := genRawBytes E (n % 32) s []
+  match firstSome (mutateBytes E) c.mutators bs0 s c.rateBits with
+  | .error e => .error e
+  | .ok (bs, s, _) =>
+    if op == .shortBinString || op == .shortBinBytes then
+      (if bs.length < 256 then .ok (some ⟨op, .bytes bs⟩, s) else .ok (none, s))
+    else .ok (some ⟨op, .bytes bs⟩, s)
+
+/-- `emit_global` / INST: `get_random_module` -/
+def emitGlobal (op : Op) (s : σ) : Except Panic (Option Instr × σ) :=
+  let (i, s) := E.chooseIndex s X.mods.length
+  match idx? "emission.rs:modules[idx]" X.mods i with
+  | .error e => .error e
+  | .ok (m, a) => .ok (some ⟨op, .pair m a⟩, s)
+
+/-- GET / BINGET / LONG_BINGET: pick an existing key (BINGET: below 256), mutate it, keep the
+mutated index only if it exists (or always in unsafe mode) -/
+def emitGet (sim : State) (op : Op) (s : σ) : Except Panic (Option Instr × σ) :=
+  let keys := if op == .binGet then (sortedKeys sim.memo).filter (· < 256) else sortedKeys sim.memo
+  if keys.isEmpty then .ok (none, s) else
+    let (j, s) := E.genRange s 0 keys.length
+    match idx? "emission.rs:keys[..]" keys j with
+    | .error e => .error e
+    | .ok index =>
+      match firstSome (mutateMemo E) c.mutators index s c.rateBits with
       | .error e => .error e
-      | .ok (v, s, _) =>
-        let ins : Instr := match chosen with
-          | .int => ⟨.int, .int v⟩
-          | .long => ⟨.long, .int v⟩
-          | .long1 => ⟨.long1, .bytes (Enc.le 4 (Enc.toU 32 v))⟩
-          | .long4 => ⟨.long4, .bytes (Enc.le 4 (Enc.toU 32 v))⟩
-          | .binInt => ⟨.binInt, .int v⟩
-          | .binInt1 => ⟨.binInt1, .int (Enc.toU 32 v % 256)⟩
-          | _ => ⟨.binInt2, .int (Enc.toU 32 v % 65536)⟩
-        .ok (some ins, s)
-  | .float | .binFloat =>
-    let (b0, s) := E.genF64 s
-    match firstSome (mutateFloat E) c.mutators b0 s rate with
-    | .error e => .error e
-    | .ok (b, s, _) =>
-      .ok (some (if op == .float then ⟨.float, .bytes (X.fmt b)⟩ else ⟨.binFloat, .float b⟩), s)
-  | .string | .unicode | .shortBinUnicode | .binUnicode | .binUnicode8 =>
-    let (n, s) := E.genU8 s
-    let (cs0, s) := genChars E (n % 32) s []
-    match firstSome (mutateString E) c.mutators cs0 s rate with
-    | .error e => .error e
-    | .ok (cs, s, _) =>
-      let bytes := utf8 cs
-      match op with
-      | .string => .ok (some ⟨.string, .bytes ([0x27] ++ Enc.escapeString bytes ++ [0x27])⟩, s)
-      | .unicode => .ok (some ⟨.unicode, .bytes (Enc.escapeBackslash bytes)⟩, s)
-      | .shortBinUnicode =>
-        if bytes.length < 256 then .ok (some ⟨.shortBinUnicode, .bytes bytes⟩, s) else .ok (none, s)
-      | _ => .ok (some ⟨op, .bytes bytes⟩, s)
-  | .binString | .shortBinString | .shortBinBytes | .binBytes | .binBytes8 | .byteArray8 =>
-    let (n, s) := E.genU8 s
-    let (bs0, s) := genRawBytes E (n % 32) s []
-    match firstSome (mutateBytes E) c.mutators bs0 s rate with
-    | .error e => .error e
-    | .ok (bs, s, _) =>
-      if op == .shortBinString || op == .shortBinBytes then
-        (if bs.length < 256 then .ok (some ⟨op, .bytes bs⟩, s) else .ok (none, s))
-      else .ok (some ⟨op, .bytes bs⟩, s)
-  | .glob | .inst =>
-    let (i, s) := E.chooseIndex s X.mods.length
-    match idx? "emission.rs:modules[idx]" X.mods i with
-    | .error e => .error e
-    | .ok (m, a) => .ok (some ⟨op, .pair m a⟩, s)
-  | .put => .ok (some ⟨.put, .nat sim.memo.length⟩, s)
-  | .binPut => .ok (some ⟨.binPut, .nat (sim.memo.length % 256)⟩, s)
-  | .longBinPut => .ok (some ⟨.longBinPut, .nat (sim.memo.length % 4294967296)⟩, s)
-  | .get | .longBinGet =>
-    let keys := sortedKeys sim.memo
-    if keys.isEmpty then .ok (none, s) else
-      let (j, s) := E.genRange s 0 keys.length
-      match idx? "emission.rs:keys[..]" keys j with
-      | .error e => .error e
-      | .ok index =>
-        match firstSome (mutateMemo E) c.mutators index s rate with
-        | .error e => .error e
-        | .ok (mi, s, _) =>
-          let idx := if c.unsafeMut || Memo.has sim.memo mi then mi else index
-          .ok (some (if op == .get then ⟨.get, .nat idx⟩ else ⟨.longBinGet, .nat (idx % 4294967296)⟩), s)
-  | .binGet =>
-    let keys := (sortedKeys sim.memo).filter (· < 256)
-    if keys.isEmpty then .ok (none, s) else
-      let (j, s) := E.genRange s 0 keys.length
-      match idx? "emission.rs:valid_indices[..]" keys j with
-      | .error e => .error e
-      | .ok index =>
-        match firstSome (mutateMemo E) c.mutators index s rate with
-        | .error e => .error e
-        | .ok (m0, s, _) =>
+      | .ok (m0, s, _) =>
+        if op == .binGet then
           let mi := min m0 255
           let idx := if c.unsafeMut || (mi < 256 && Memo.has sim.memo mi) then mi else index
           .ok (some ⟨.binGet, .nat (idx % 256)⟩, s)
+        else
+          let idx := if c.unsafeMut || Memo.has sim.memo m0 then m0 else index
+          .ok (some (if op == .get then ⟨.get, .nat idx⟩ else ⟨.longBinGet, .nat (idx % 4294967296)⟩), s)
+
+/-- the emission part of `emit_and_process`: which instruction is written for the chosen opcode
+(`none`: nothing is written) -/
+def emitOne (sim : State) (op : Op) (s : σ) : Except Panic (Option Instr × σ) :=
+  match op with
+  | .int | .long | .long1 | .long4 | .binInt | .binInt1 | .binInt2 => emitInt E c s
+  | .float | .binFloat => emitFloat E X c op s
+  | .string | .unicode | .shortBinUnicode | .binUnicode | .binUnicode8 => emitStr E c op s
+  | .binString | .shortBinString | .shortBinBytes | .binBytes | .binBytes8 | .byteArray8 => emitBytes E c op s
+  | .glob | .inst => emitGlobal E X op s
+  | .put => .ok (some ⟨.put, .nat sim.memo.length⟩, s)
+  | .binPut => .ok (some ⟨.binPut, .nat (sim.memo.length % 256)⟩, s)
+  | .longBinPut => .ok (some ⟨.longBinPut, .nat (sim.memo.length % 4294967296)⟩, s)
+  | .get | .longBinGet | .binGet => emitGet E c sim op s
   | .ext1 => let (b, s) := E.genU8 s; .ok (some ⟨.ext1, .nat (min (b + 1) 255)⟩, s)
   | .ext2 => let (b, s) := E.genU16 s; .ok (some ⟨.ext2, .nat (min (b + 1) 65535)⟩, s)
   | .ext4 => let (b, s) := E.genU32 s; .ok (some ⟨.ext4, .int ((b % 2147483647 + 1 : Nat) : Int)⟩, s)
